@@ -315,12 +315,13 @@ def vlTriples (p : Params) : List Triple := if p.vl then [varLengthTriple p.numN
 def msTriples (ms : Bool) (k : Nat) : List Triple := if ms then [sparseTriple k] else []
 
 /-- the shape of every successful result of `create_dummy_in_mem_geff` -/
-theorem createDummy_ok {p : Params} {g : Geff} (h : createDummyInMemGeff p = .ok g) :
+theorem createDummy_ok {ok : Bool} {p : Params} {g : Geff} (h : createDummyInMemGeff ok p = .ok g) :
     ∃ es xn xe,
       Gen.MockEdges.gen p.directed (p.numNodes : Int) (p.numEdges : Int) = .ok es ∧
       p.extraNode ≠ .notDict ∧ p.extraEdge ≠ .notDict ∧
       extraTriples p.numNodes (itemsOf p.extraNode) = .ok xn ∧
       extraTriples es.length (itemsOf p.extraEdge) = .ok xe ∧
+      (ok = true ∨ p.numNodes ≠ 0 ∨ p.vl = false) ∧
       g = assemble p es (axisOuts p)
             (pushAll {} (axisTriples p ++ xn ++ vlTriples p ++ msTriples p.ms p.numNodes))
             (pushAll {} (xe ++ msTriples p.ms es.length)) := by
@@ -342,16 +343,54 @@ theorem createDummy_ok {p : Params} {g : Geff} (h : createDummyInMemGeff p = .ok
       | other e => rw [he] at h; cases h
       | ok ea =>
         rw [he] at h
-        simp only [Outcome.ok.injEq] at h
-        obtain ⟨hnd, xn, hxn, rfl⟩ := extras_ok hn
-        obtain ⟨hed, xe, hxe, rfl⟩ := extras_ok he
-        refine ⟨es, xn, xe, rfl, hnd, hed, hxn, hxe, ?_⟩
-        rw [← h]
-        congr 1
-        · unfold withSparse withVarLength vlTriples msTriples
-          cases p.vl <;> cases p.ms <;> simp [pushAll]
-        · unfold withSparse msTriples
-          cases p.ms <;> simp [pushAll]
+        simp only at h
+        split at h
+        · cases h
+        · rename_i hguard
+          simp only [Outcome.ok.injEq] at h
+          obtain ⟨hnd, xn, hxn, rfl⟩ := extras_ok hn
+          obtain ⟨hed, xe, hxe, rfl⟩ := extras_ok he
+          refine ⟨es, xn, xe, rfl, hnd, hed, hxn, hxe, ?_, ?_⟩
+          · cases hok : ok
+            · cases hvl : p.vl
+              · exact Or.inr (Or.inr rfl)
+              · refine Or.inr (Or.inl ?_)
+                intro hn0
+                apply hguard
+                simp [hok, hvl, hn0]
+            · exact Or.inl rfl
+          · rw [← h]
+            congr 1
+            · unfold withSparse withVarLength vlTriples msTriples
+              cases p.vl <;> cases p.ms <;> simp [pushAll]
+            · unfold withSparse msTriples
+              cases p.ms <;> simp [pushAll]
+
+/-- conversely: what `create_dummy_in_mem_geff` accepts -/
+theorem createDummy_accepts (ok : Bool) (p : Params) (es : List (Int × Int)) (xn xe : List Triple)
+    (hgen : Gen.MockEdges.gen p.directed (p.numNodes : Int) (p.numEdges : Int) = .ok es)
+    (hnd : p.extraNode ≠ .notDict) (hed : p.extraEdge ≠ .notDict)
+    (hxn : extraTriples p.numNodes (itemsOf p.extraNode) = .ok xn)
+    (hxe : extraTriples es.length (itemsOf p.extraEdge) = .ok xe)
+    (hok : ok = true ∨ p.numNodes ≠ 0 ∨ p.vl = false) :
+    ∃ g, createDummyInMemGeff ok p = .ok g := by
+  have hextras : ∀ (len : Nat) (a : Acc) (x : Extra) (ts : List Triple), x ≠ .notDict →
+      extraTriples len (itemsOf x) = .ok ts → extras len a x = .ok (pushAll a ts) := by
+    intro len a x ts hx ht
+    cases x with
+    | none => simp only [itemsOf, extraTriples] at ht; cases ht; rfl
+    | notDict => exact absurd rfl hx
+    | dict items => simp only [extras, extraLoop_eq]; simp only [itemsOf] at ht; rw [ht]
+  unfold createDummyInMemGeff
+  simp only [axesAcc_eq, hgen, castEdges, hextras _ _ _ _ hnd hxn, hextras _ _ _ _ hed hxe]
+  split
+  · rename_i hguard
+    simp only [Bool.and_eq_true, beq_iff_eq, Bool.not_eq_eq_eq_not, Bool.not_true] at hguard
+    rcases hok with h | h | h
+    · rw [h] at hguard; exact absurd hguard.2 (by simp)
+    · exact absurd hguard.1.2 h
+    · rw [h] at hguard; exact absurd hguard.1.1 (by simp)
+  · exact ⟨_, rfl⟩
 
 theorem forall₂_names {len : Nat} {items : List (Option String × Req)} {ts : List Triple}
     (h : List.Forall₂ (fun it t => stepOut len it = .ok t) items ts) :
